@@ -221,7 +221,7 @@ int URI_FUNC(ComposeQueryEngine)(URI_CHAR * dest,
 	while (queryList != NULL) {
 		const URI_CHAR * const key = queryList->key;
 		const URI_CHAR * const value = queryList->value;
-		const int worstCase = (normalizeBreaks == URI_TRUE ? 6 : 3);
+		const int worstCase = (normalizeBreaks ? 6 : 3);
 		const size_t keyLen = (key == NULL) ? 0 : URI_STRLEN(key);
 		int keyRequiredChars;
 		const size_t valueLen = (value == NULL) ? 0 : URI_STRLEN(value);
